@@ -275,22 +275,25 @@ def clause_e(ctx, P):
     roots = thread_roots(P)
     dreach = P.reachable_from(list(roots))
     n = 0
-    for em in emissions(P):
+    ords = {}
+    for em in sorted(emissions(P), key=lambda e: (e.fn.name, e.fn.term_line(e.bb), e.bb)):
         if em.via != "direct" or em.fn.name not in dreach or not em.blocking:
             continue
+        ords[(em.fn.name, em.chan)] = ords.get((em.fn.name, em.chan), 0) + 1
+        nth = ords[(em.fn.name, em.chan)]
         if em.chan in ONE_SHOT:
             # one-shot: the sender must come out of a Command payload (consumed with the command)
             n += 1
             continue
         if em.chan in MULTI_EVENT:
             n += 1
-            ctx.ob("C14e.F14.daemon-blocking-send", "%s|%s" % (em.fn.name, em.chan.split("::")[-1]), False, em.fn.loc(em.bb),
+            ctx.ob("C14e.F14.daemon-blocking-send", "%s|%s#%d" % (em.fn.name, em.chan.split("::")[-1], nth), False, em.fn.loc(em.bb),
                    "daemon-thread code performs a blocking flume::Sender::send of %s on a bounded(10) client channel: a client that holds the "
                    "receiver without draining it parks the daemon after 10 events; no command, including shutdown, is executed any more" % em.chan.split("::")[-1],
                    what="blocking send on bounded client channel in %s" % em.fn.name.split("::", 1)[-1])
         else:
             n += 1
-            ctx.ob("C14e.F14.daemon-blocking-send", "%s|%s" % (em.fn.name, em.chan.split("::")[-1]), False, em.fn.loc(em.bb),
+            ctx.ob("C14e.F14.daemon-blocking-send", "%s|%s#%d" % (em.fn.name, em.chan.split("::")[-1], nth), False, em.fn.loc(em.bb),
                    "blocking send on an unclassified channel type %s in daemon-thread code" % em.chan)
     ctx.floor("C14e.F14.daemon-sends", n, 5, "blocking sends in daemon-thread code")
     # monitors are notified with try_send only
